@@ -16,9 +16,10 @@ type modset struct {
 	all    bool
 	allocs bool
 	why    string
+	locals map[*ssa.Alloc]bool // non-escaping locals stored to (not propagated to callers)
 }
 
-func newModset() *modset { return &modset{fams: map[string]string{}} }
+func newModset() *modset { return &modset{fams: map[string]string{}, locals: map[*ssa.Alloc]bool{}} }
 
 func (m *modset) union(o *modset) bool {
 	changed := false
@@ -105,6 +106,13 @@ func resolveAddr(v ssa.Value) (root types.Type, path string, cur types.Type, ok 
 func (eng *Engine) instrMods(fn *ssa.Function, ins ssa.Instruction, m *modset, callees *[]*ssa.Function) {
 	switch x := ins.(type) {
 	case *ssa.Store:
+		if al := rootAlloc(x.Addr); al != nil && !al.Heap {
+			t := al.Type().(*types.Pointer).Elem()
+			if _, isArr := t.Underlying().(*types.Array); !isArr && !hasEmbeddedArray(t) {
+				m.locals[al] = true
+				return
+			}
+		}
 		root, path, cur, ok := resolveAddr(x.Addr)
 		if !ok {
 			m.all = true
@@ -113,9 +121,13 @@ func (eng *Engine) instrMods(fn *ssa.Function, ins ssa.Instruction, m *modset, c
 		}
 		m.addLeaves(root, path, cur)
 	case *ssa.Alloc:
+		t := x.Type().(*types.Pointer).Elem()
+		if _, isArr := t.Underlying().(*types.Array); !x.Heap && !isArr && !hasEmbeddedArray(t) {
+			m.locals[x] = true
+			return
+		}
 		m.allocs = true
 		// zero-initialisation writes the object's own families (fresh memory)
-		t := x.Type().(*types.Pointer).Elem()
 		if at, ok := t.Underlying().(*types.Array); ok {
 			m.addElem(at.Elem())
 		} else {
@@ -337,4 +349,17 @@ func mapFamilies(mt *types.Map) map[string]string {
 	// maps are not modelled: nothing in a VC can read them, so their writes
 	// need no havoc
 	return map[string]string{}
+}
+
+func rootAlloc(v ssa.Value) *ssa.Alloc {
+	for {
+		switch x := v.(type) {
+		case *ssa.FieldAddr:
+			v = x.X
+		case *ssa.Alloc:
+			return x
+		default:
+			return nil
+		}
+	}
 }
